@@ -276,3 +276,46 @@ def rule_patch_order_atomic(ck, repo, R):
                           f'"changes omitted"', file=f.file, line=lp.lineno, func=f.qualname, construct=src(it))
     ck.count(f'{R}: rules walked', total)
     ck.require(total >= 60, f'only {total} delta rules recognised')
+
+
+def rule_overlap_atoms(ck, repo, R):
+    """C14: the 4th element of a compiled rule lists the pattern atoms that successive matches of the same rule may share. For the metal-organic rules every metal
+    (`M`) is such an atom, whether or not the rule recharges it (one metal carries several ligands, each a separate match); wildcard `A` atoms are, unless patched.
+    Decided by evaluating the selecting conditions for every (symbol, patched) combination"""
+    from .r_query import _ev, _Unknown
+    ck.rule(R, '_metal_organics._rules: a pattern atom goes into any_atoms iff it is `M`, or it is `A` and the rule does not patch it; the comprehension / extend conditions '
+               'are evaluated over symbol in {A, M, C} x patched in {yes, no}, whatever their spelling')
+    m = repo.module('chython.algorithms.standardize._metal_organics')
+    f = m.functions.get('_rules')
+    ck.require(f is not None, '_metal_organics._rules vanished')
+    conds = []
+    for n in ast.walk(f.node):
+        comp = None
+        if isinstance(n, ast.Assign) and src(n.targets[0]) == 'any_atoms' and isinstance(n.value, (ast.ListComp, ast.SetComp)):
+            comp = n.value
+        elif isinstance(n, ast.Call) and isinstance(n.func, ast.Attribute) and n.func.attr in ('extend', 'update') and src(n.func.value) == 'any_atoms' and n.args \
+                and isinstance(n.args[0], (ast.GeneratorExp, ast.ListComp, ast.SetComp)):
+            comp = n.args[0]
+        if comp is not None and len(comp.generators) == 1 and 'atoms()' in src(comp.generators[0].iter):
+            g = comp.generators[0]
+            tv = [src(e) for e in g.target.elts] if isinstance(g.target, ast.Tuple) else []
+            if len(tv) == 2 and src(comp.elt) == tv[0]:
+                conds.append((tv[0], tv[1], list(g.ifs)))
+    ck.require(conds, '_metal_organics._rules: construction of any_atoms not recognised')
+    bad = []
+    for sym in ('A', 'M', 'C'):
+        for patched in (False, True):
+            got = False
+            for nv, av, ifs in conds:
+                env = {f'{av}.atomic_symbol': sym, nv: 1, 'atom_fix': {1: (0, None)} if patched else {}}
+                try:
+                    if all(_ev(c, env) for c in ifs):
+                        got = True
+                except _Unknown as e:
+                    raise AnalysisError(f'_metal_organics._rules: any_atoms condition not understood ({e})')
+            want = sym == 'M' or (sym == 'A' and not patched)
+            if got != want:
+                bad.append((sym, 'patched' if patched else 'not patched', got))
+    ck.decide(not bad, R, 'any_atoms', None,
+              f'_metal_organics._rules: any_atoms membership is wrong for {bad} (symbol, patched, included): a metal that the rule recharges must stay shareable between matches, '
+              f'otherwise only the first ligand on a metal is converted per call and standardize() is not idempotent', file=m.relpath, line=f.lineno, func='_rules')
